@@ -25,8 +25,16 @@ CLASSES = ["reloaded_object", "control_strata", "ratio_bound", "best_response_ch
 # classes whose occurrence depends on implementation internals (reported, warned about when absent, never a hard vacuity error)
 SOFT_CLASSES = ["projection_changes_lambda"]
 
-cases = MC.cases
-bounds = MC.bounds
+def cases(tier, seed):
+    return MC.cases(tier, seed, light=True)
+
+
+def bounds(tier, seed):
+    b = MC.bounds(tier, seed)
+    b["thorough"] = "G<=3 n<=5; G=4 n<=4; G<=3 2 strata n<=4; G=2 3 strata n<=3"
+    return b
+
+
 describe = MC.describe
 
 
@@ -116,6 +124,11 @@ def run_case(case):
                 V.append(viol("C07:%s:gamma-nonaffine" % name, "gamma(soft) != affine combination of unit gammas (%s)" % ctx))
             lam_soft = _lam(idx, [(j, MC.SOFT[(seed + 1) % 4][j % 6]) for j in range(k)])
             ws = np.asarray(m.signed_weights(lam_soft), float)
+            # the same multipliers given as a Series whose labels are in ANOTHER order: matched by label, never by position
+            wr = np.asarray(m.signed_weights(lam_soft[::-1]), float)
+            if not np.allclose(wr, ws, rtol=0, atol=1e-12):
+                V.append(viol("C07:%s:lambda-matched-by-position" % name, "signed_weights changes when the multiplier Series is given in reversed label order: %r vs %r (%s)" % (
+                    wr.tolist(), ws.tolist(), ctx), ws.tolist(), wr.tolist()))
             if not np.allclose(ws, sum(lam_soft.iloc[j] * W[j] for j in range(k)), rtol=0, atol=1e-12):
                 V.append(viol("C07:%s:signed_weights-nonlinear" % name, "signed_weights(palette lambda) != combination (%s)" % ctx))
             # full identity on the palette pair (lambda_soft, soft vs e_0)
@@ -201,8 +214,11 @@ def run_case(case):
     # loss moments
     out["classes"].add("loss_moment")
     yreal = [0.25 * yi + 0.125 * i for i, yi in enumerate(y)]
-    for lname, loss in (("SquareLoss", red.SquareLoss(0.0, 1.0)), ("AbsoluteLoss", red.AbsoluteLoss(0.0, 1.0))):
+    for lname, loss, rev in (("SquareLoss", red.SquareLoss(0.0, 1.0), False), ("AbsoluteLoss", red.AbsoluteLoss(0.0, 1.0), False),
+                             ("SquareLoss-rows-reversed", red.SquareLoss(0.0, 1.0), True)):
         m = red.BoundedGroupLoss(loss, upper_bound=0.3)
+        if rev:  # groups now FIRST APPEAR in reverse label order
+            yreal, a = yreal[::-1], a[::-1]
         m.load_data(X, np.array(yreal), sensitive_features=np.array(a))
         idx = m.index
         for j in range(len(idx)):
@@ -210,6 +226,11 @@ def run_case(case):
                 lam = pd.Series(0.0, index=idx)
                 lam.iloc[j] = 1.5
                 w = np.asarray(m.signed_weights(lam), float)
+                wr = np.asarray(m.signed_weights(lam[::-1]), float)
+                if not np.allclose(wr, w, rtol=0, atol=1e-12):
+                    V.append(viol("C07:BoundedGroupLoss-%s:lambda-matched-by-position" % lname, "signed_weights changes when the multiplier Series is given in reversed label order "
+                                  "(group %r, y=%r a=%r)" % (idx[j], yreal, a), w.tolist(), wr.tolist()))
+                    break
                 li = np.asarray(loss.eval(np.array(yreal), np.array(h)), float)
                 lhs = float(lam.values @ np.asarray(m.gamma(MC.as_pred(h)), float))
                 rhs = float(np.sum(w * li)) / n
